@@ -189,7 +189,7 @@ end
    (Lean's `Float` is opaque to proofs) and no `P% of` (computed in double precision, finding F44);
  * no integer value equal to the YR_UNDEFINED sentinel (finding F14);
  * quantifier expressions are defined (finding F42);
- * ranges end below INT64_MAX (the iterator's `next++` would wrap). -/
+ * range bounds are 64-bit values and loops have fewer than 2^60 iterations. -/
 
 /-- the value has the shape its static type promises, and is not an integer equal to the sentinel -/
 def ValOk : Ty → Val → Prop
@@ -256,7 +256,7 @@ def WF (env : Env) (c : Ctx) : LEnv → Expr → Prop
       (q = .num → WF env c l qe ∧ tyOf c qe = .int ∧ eval env l qe ≠ .undef) ∧
       WF env c l lo ∧ WF env c l hi ∧ tyOf c lo = .int ∧ tyOf c hi = .int ∧ c.vars.length < 4 ∧
       (∀ a b, eval env l lo = .int a → eval env l hi = .int b →
-        C.INT64_MIN ≤ a ∧ b < C.INT64_MAX ∧ b - a < 1152921504606846975) ∧
+        C.INT64_MIN ≤ a ∧ b ≤ C.INT64_MAX ∧ b - a < 1152921504606846975) ∧
       (∀ v, v ∈ intRange (eval env l lo) (eval env l hi) →
         WF env { c with vars := c.vars ++ [.int] } { l with vars := l.vars ++ [v] } body ∧ v ≠ .int C.UNDEF)
   | l, .forEnum q qe items body =>
